@@ -2,10 +2,105 @@ import ShelxModel.JsonUtil
 import ShelxModel.C13
 open Lean Shelx.J
 
+/-
+  C13 driver: one request = one structure.
+    {"p":"C13","op":"sdm","cell":[a,b,c],"cos":[cosal,cosbe,cosga],
+     "ops":[[m00,m01,m02,m10,…,m22,t0,t1,t2],…]      the operator list as the library holds it (matrix rows, trans)
+     "sops":[[R00,…,R22,tau0,tau1,tau2],…]            the operators of the specification (x ↦ R x + τ)
+     "atoms":[{"xyz":[x,y,z],"el":"C","part":0},…],"box":3,"tiny":1e-6}
+  Answer: model items / molindex (Float instance of the model, thresholds and radii from the extracted
+  tables) and the specification (brute force, rule, components).
+-/
 namespace Shelx.Drv.C13
+open Shelx.C13
+
+def ratToFloat (r : Rat) : Float := Float.ofInt r.num / Float.ofNat r.den
+
+def constsF : Consts Float :=
+  { cut := ratToFloat Extracted.cutQ, bias := ratToFloat Extracted.biasQ, eps := ratToFloat Extracted.epsQ,
+    factor := ratToFloat Extracted.factorQ, half := ratToFloat Extracted.halfQ, big := ratToFloat Extracted.bigQ,
+    nobond := ratToFloat Extracted.nobondQ }
+
+def v3 (l : List Float) (k : Nat) : Except String (V3 Float) :=
+  match l.drop k with
+  | x :: y :: z :: _ => .ok ⟨x, y, z⟩
+  | _ => err "C13: vector of 3 numbers expected"
+
+def opOf (j : Json) : Except String (Op Float) := do
+  let l ← floats j
+  if l.length ≠ 12 then err "C13: operator needs 12 numbers"
+  return { r0 := ← v3 l 0, r1 := ← v3 l 3, r2 := ← v3 l 6, t := ← v3 l 9 }
+
+def sopOf (j : Json) : Except String (SOp Float) := do
+  let l ← floats j
+  if l.length ≠ 12 then err "C13: operator needs 12 numbers"
+  return { r0 := ← v3 l 0, r1 := ← v3 l 3, r2 := ← v3 l 6, tau := ← v3 l 9 }
+
+def radiusOf (el : String) : Except String Float :=
+  match Extracted.covRadius.find? (·.1 = el) with
+  | some (_, r) => .ok (ratToFloat r)
+  | none => err s!"C13: no covalent radius for {el}"
+
+def atomOf (j : Json) : Except String (AtomM Float) := do
+  let xyz ← field j "xyz" >>= floats
+  let el ← strField j "el"
+  return { pos := ← v3 xyz 0, hyd := Extracted.hydrogenElements.contains el, part := ← intField j "part",
+           radius := ← radiusOf el }
+
+def intRange (b : Nat) : List Float := (List.range (2 * b + 1)).map fun (k : Nat) => Float.ofInt (Int.ofNat k - Int.ofNat b)
+
+def boxOf (b : Nat) : List (V3 Float) :=
+  (intRange b).flatMap fun x => (intRange b).flatMap fun y => (intRange b).map fun z => ⟨x, y, z⟩
+
+def optNat : Option Nat → Json
+  | none => Json.null
+  | some n => ofNat n
 
 def handle (j : Json) : Except String Json := do
   let op ← strField j "op"
-  err s!"C13: unknown op {op}"
+  match op with
+  | "sdm" =>
+    let cl ← field j "cell" >>= floats
+    let cs ← field j "cos" >>= floats
+    let (a, b, c) ← match cl with | [a, b, c] => pure (a, b, c) | _ => err "C13: cell needs a b c"
+    let (ca, cb, cg) ← match cs with | [a, b, c] => pure (a, b, c) | _ => err "C13: cos needs 3 numbers"
+    let ops ← (← arrField j "ops").mapM opOf
+    let sops ← (← arrField j "sops").mapM sopOf
+    let atoms ← (← arrField j "atoms").mapM atomOf
+    let box := boxOf (← natField j "box")
+    let tiny ← floatField j "tiny"
+    let cell : Cell Float := Cell.ofLengths a b c ca cb cg
+    -- model
+    let items := calcSdm Float.floor Float.sqrt constsF cell ops atoms
+    let n := atoms.length
+    let hydF := fun i => match atoms[i]? with | some a => a.hyd | none => false
+    let bonds := items.map fun it => ({ a1 := it.a1, a2 := it.a2, covalent := it.covalent } : Bond)
+    let mol := match calcMolindex hydF n bonds with
+      | none => Json.null
+      | some (m, mx) => Json.mkObj [("mol", ofInts ((List.range n).map m)), ("maxmol", ofInt mx)]
+    let itemsJ := Json.arr (items.map fun it =>
+      Json.arr #[ofNat it.a1, ofNat it.a2, ofFloat it.dist, ofNat it.sym, Json.bool it.covalent]).toArray
+    -- specification
+    let msq := metricSq a b c ca cb cg
+    let ea := enum atoms
+    let pairs := ea.flatMap fun (i, a1) => ea.map fun (j, a2) =>
+      let r := specPair msq (tiny * tiny) sops box a1.pos a2.pos
+      let bonded := match r with
+        | none => false
+        | some (d2, _) => ruleBonded (ratToFloat statementFactor) a1.radius a2.radius (Float.sqrt d2) a1.hyd a2.hyd a1.part a2.part
+      (i, j, r, bonded)
+    let bondedF := fun i j => pairs.any fun (i', j', _, b) => i' == i && j' == j && i != j && b
+    let labels := specLabels n bondedF
+    let pairsJ := Json.arr (pairs.map fun (i, j, r, b) =>
+      match r with
+      | none => Json.arr #[ofNat i, ofNat j, Json.null, Json.null, Json.bool b]
+      | some (d2, k) => Json.arr #[ofNat i, ofNat j, ofFloat (Float.sqrt d2), ofNat k, Json.bool b]).toArray
+    return Json.mkObj [("items", itemsJ), ("molindex", mol), ("spec_pairs", pairsJ),
+                       ("spec_labels", Json.arr (labels.map ofNat).toArray)]
+  | "consts" =>
+    return Json.mkObj [("cut", ofFloat constsF.cut), ("bias", ofFloat constsF.bias), ("eps", ofFloat constsF.eps),
+                       ("factor", ofFloat constsF.factor), ("half", ofFloat constsF.half),
+                       ("hydrogen", ofStrs Extracted.hydrogenElements)]
+  | _ => err s!"C13: unknown op {op}"
 
 end Shelx.Drv.C13
